@@ -187,7 +187,7 @@ def targeted():
 def generate(rng, tier):
     cases = targeted()
     streams = ["targeted"] * len(cases)
-    n = 1200 if tier == "quick" else 20000
+    n = 3500 if tier == "quick" else 25000
     for _ in range(n):
         cases.append(gen_case(rng, tier))
         streams.append("random")
